@@ -102,6 +102,31 @@ def is_zero(e):
     return False
 
 
+
+def sqrt_zero(e):
+    """e == 0 modulo the relations S^2 = radicand for every square-root atom S (polynomial remainder)"""
+    e = sp.sympify(e)
+    if is_zero(e):
+        return True
+    roots = sorted([a for a in e.atoms(sp.Pow) if a.exp == sp.Rational(1, 2) or a.exp == sp.Rational(-1, 2)], key=lambda a: -len(str(a)))
+    rad = {}
+    for a in roots:
+        rad.setdefault(a.base, sp.Symbol('S%d' % len(rad), positive=True))
+    sub = {}
+    for a in roots:
+        sub[a] = rad[a.base] if a.exp > 0 else 1 / rad[a.base]
+    t = sp.cancel(sp.together(e.subs(sub)))
+    n = sp.expand(sp.numer(t))
+    for base, S in rad.items():
+        n = sp.rem(sp.Poly(n, S), sp.Poly(S ** 2 - base, S)).as_expr() if n.has(S) else n
+        n = sp.expand(n)
+    if n == 0:
+        return True
+    n = sp.expand(sp.numer(sp.cancel(sp.together(n))))
+    return n == 0
+
+
+
 LIBM1 = {'sqrt': sp.sqrt, 'exp': sp.exp, 'log': sp.log, 'sin': sp.sin, 'cos': sp.cos, 'tan': sp.tan, 'sinh': sp.sinh,
          'cosh': sp.cosh, 'tanh': sp.tanh, 'fabs': sp.Abs, 'atan': sp.atan, 'asin': sp.asin, 'acos': sp.acos,
          'floor': sp.floor, 'ceil': sp.ceiling}
@@ -292,6 +317,16 @@ class Alg:
                     return (bool(r), None)
             except TypeError:
                 pass
+        # decided by the assumptions the caller attached to its symbols (positive / nonnegative ...)
+        try:
+            sg = 1 if dif.is_positive else (-1 if dif.is_negative else (0 if dif.is_zero else None))
+        except Exception:
+            sg = None
+        if sg is not None and not (kind == 'icmp' and pred[0] == 'u'):
+            rel = Cond(kind, pred, a, b).rel()
+            r = {'<': sg < 0, '<=': sg <= 0, '>': sg > 0, '>=': sg >= 0, '==': sg == 0, '!=': sg != 0}.get(rel)
+            if r is not None:
+                return (bool(r), None)
         return (None, Cond(kind, pred, a, b))
 
     def truth(self, c):
